@@ -50,7 +50,8 @@ PkgOf(fs, n)     == IF IsForeign(fs, n) THEN FEntry(fs, n).pkg ELSE ""
 
 \* ------------------------------------------------------------------ EmitExpect
 JType(v) == CASE v.j = "str" -> "string" [] v.j = "bool" -> "boolean"
-              [] v.j = "num" -> (IF v.n % 10 = 0 THEN "integer" ELSE "number") [] OTHER -> "none"
+              [] v.j = "num" -> (IF v.n % 10 = 0 THEN "integer" ELSE "number")
+              [] v.j = "big" -> "integer" [] OTHER -> "none"
 
 RECURSIVE EmitExpect(_, _)
 EmitExpect(fs, t) ==
@@ -174,8 +175,8 @@ Dangling(emitted) ==
 EDefsFn(ds) == [n \in {ds[i].name : i \in DOMAIN ds} |-> GetDef(ds, n)]
 TypeOK(ty, v) ==
   CASE ty = "string"  -> v.j = "str"
-    [] ty = "integer" -> v.j = "num" /\ v.n % 10 = 0
-    [] ty = "number"  -> v.j = "num"
+    [] ty = "integer" -> (v.j = "num" /\ v.n % 10 = 0) \/ v.j = "big"
+    [] ty = "number"  -> v.j \in {"num", "big"}
     [] ty = "boolean" -> v.j = "bool"
     [] ty = "null"    -> v.j = "null"
     [] OTHER -> TRUE
